@@ -18,7 +18,9 @@ if os.path.exists(os.path.join(Z3DIR, "lib", "libz3.so")):
     Z3INC, Z3LINK, Z3NAME = ["-I", os.path.join(Z3DIR, "include")], ["-L" + os.path.join(Z3DIR, "lib"), "-lz3", "-Wl,-rpath," + os.path.join(Z3DIR, "lib")], "z3 5.1.0 (tooling venv libz3.so)"
 else:
     Z3INC, Z3LINK, Z3NAME = [], ["-lz3"], "system libz3 4.8.12"
-CXXF = ["-std=c++17", "-O1", "-fno-vectorize", "-fno-slp-vectorize", "-fno-unroll-loops", "-ffp-contract=off",
+STUBS = ["-include", os.path.join(ES, "stub_random.h")]     # environment stubs applied to every verification build (symbolic and native replay)
+# -mlong-double-64: the few long double computations of the library (e.g. rcont2) become double operations, so the pass sees them (REAL mode is exact arithmetic anyway)
+CXXF = STUBS + ["-mlong-double-64", "-std=c++17", "-O1", "-fno-vectorize", "-fno-slp-vectorize", "-fno-unroll-loops", "-ffp-contract=off",
         "-D_GLIBCXX_ASSERTIONS", "-D" + GUARD, "-fPIC", "-w"]
 
 
@@ -77,7 +79,7 @@ def repo_sources():
 
 def repo_hash():
     files = glob.glob(os.path.join(SRC, "**", "*.h"), recursive=True) + glob.glob(os.path.join(SRC, "**", "*.cpp"), recursive=True)
-    eng = [os.path.join(ES, f) for f in ("SymFP.cpp", "symrt.cpp", "symrt.h")] + [os.path.abspath(__file__)]
+    eng = [os.path.join(ES, f) for f in ("SymFP.cpp", "symrt.cpp", "symrt.h", "stub_random.h")] + [os.path.abspath(__file__)]
     return sha_files(files + eng)[:20]
 
 
@@ -149,7 +151,7 @@ def _native_one(args):
     f, d = args
     b = os.path.relpath(f, os.path.join(SRC, "Bpp")).replace("/", "_")[:-4]
     o = os.path.join(d, "nobj", b + ".o")
-    rc, out = run(["g++", "-std=c++17", "-O2", "-D_GLIBCXX_ASSERTIONS", "-D" + GUARD, "-w", "-I", SRC, "-c", f, "-o", o])
+    rc, out = run(["g++"] + STUBS + ["-std=c++17", "-O2", "-D_GLIBCXX_ASSERTIONS", "-D" + GUARD, "-w", "-I", SRC, "-c", f, "-o", o])
     return (f, out if rc else None)
 
 
@@ -204,7 +206,7 @@ def build_replay(src, defines, h=None):
     exe = os.path.join(d, "r_" + os.path.basename(src)[:-4] + "_" + key)
     if os.path.exists(exe) and not newer(exe, [rp, lib]):
         return exe
-    must(["g++", "-std=c++17", "-O1", "-D_GLIBCXX_ASSERTIONS", "-D" + GUARD, "-DSYM_REPLAY", "-w", "-I", SRC, "-I", ES, "-I", os.path.join(VERIF, "harness")] + ["-D" + x for x in defines] +
+    must(["g++"] + STUBS + ["-std=c++17", "-O1", "-D_GLIBCXX_ASSERTIONS", "-D" + GUARD, "-DSYM_REPLAY", "-w", "-I", SRC, "-I", ES, "-I", os.path.join(VERIF, "harness")] + ["-D" + x for x in defines] +
          [src, rp, lib, "-o", exe + ".tmp"])
     os.replace(exe + ".tmp", exe)
     return exe
